@@ -73,6 +73,8 @@ fn forms() -> Vec<Form> {
     let values = [
         "true", "false", "\"str\"", "r#\"raw\"#", "\"\"", "'c'", "5", "-5", "0xff_u8", "1.5", "-2.5e3", "b'x'", "b\"xy\"", "c\"cs\"",
         "a::b", "foo", "1 + 2", "|a| a", "|a, b| a", "[1, 2]", "-x", "(1)", "f(1)", "1..2", "{ 1 }", "&1", "m!(1)",
+        // `-` or `!` applied to a literal that is not a number is an expression like `-x`
+        "-\"s\"", "-true", "-'c'", "-b'c'", "!\"s\"", "!true",
     ];
     for val in values {
         v.push(f(&format!("x = {val}"), 0, false));
@@ -312,6 +314,39 @@ fn run_routing(c: &mut Collector) {
                                     Route::DefaultFormat(w) => d.starts_with("Unexpected meta-item format") && d.contains(w),
                                     _ => d.starts_with("Unexpected type"),
                                 };
+                                // the type the rejection names is the item's: an expression that is no literal
+                                // (`-x`, `-"s"`, `1 + 2`) is not called by a literal's name
+                                const LIT_NAMES: [&str; 7] = ["`string`", "`byte string`", "`byte`", "`char`", "`int`", "`float`", "`bool`"];
+                                if matches!(want, Route::DefaultType) {
+                                    let value: Option<&syn::Expr> = match (&meta, &nested) {
+                                        (Some(Meta::NameValue(nv)), _) => Some(&nv.value),
+                                        (_, Some(NestedMeta::Meta(Meta::NameValue(nv)))) => Some(&nv.value),
+                                        _ => None,
+                                    };
+                                    if let Some(v) = value {
+                                        let mut v = v;
+                                        while let syn::Expr::Group(g) = v {
+                                            v = &g.expr;
+                                        }
+                                        let is_lit = match v {
+                                            syn::Expr::Lit(_) => true,
+                                            syn::Expr::Unary(u) if matches!(u.op, syn::UnOp::Neg(_)) => {
+                                                let mut o = &*u.expr;
+                                                while let syn::Expr::Group(g) = o {
+                                                    o = &g.expr;
+                                                }
+                                                matches!(o, syn::Expr::Lit(l) if matches!(l.lit, syn::Lit::Int(_) | syn::Lit::Float(_)))
+                                            }
+                                            _ => false,
+                                        };
+                                        let names_lit = LIT_NAMES.iter().any(|n| d.contains(n));
+                                        // (the other direction is not judged: C-string and verbatim literals have no
+                                        // name of their own)
+                                        if !is_lit && names_lit {
+                                            fail("default-error-names-other-type", format!("`{input}`: default rejection says {d:?} for an expression that is no literal"));
+                                        }
+                                    }
+                                }
                                 if !ok_kind {
                                     fail("default-error-kind", format!("`{input}`: default rejection says {d:?}, expected the {} kind", if matches!(want, Route::DefaultType) { "unexpected-type" } else { "unsupported-format" }));
                                 }
